@@ -8,6 +8,14 @@ index..]}: the batch `members` is received, then the request members deliver the
 `order` (members listed in `errs` deliver an RPCError instead of a value).  A single request /
 notification is {'proto', 'max', 'single': payload, 'err': bool}.
 
+`max_response_size` is a public attribute "intended to be settable dynamically": `max` is its
+value when the message is RECEIVED; `lims` (one per delivery, in completion order; default: `max`
+every time) are the values it is set to before each result is supplied, `lim` the same for a
+single request; `decoy`: the attribute is first set to another value and then to the intended
+one (several changes between two events).  For two batches in flight `ilims` gives the value per
+interleaving step.  The oracle judges every size clause with the limit in force AT THE MOMENT THE
+RESULT WAS SUPPLIED (see `limits_of`), and the model line carries that limit per delivery.
+
 Layers: connection (`receive_message` + `send_result`, this file), serving session with gated
 handlers (harness/c02_session.py), serving session on the virtual clock with a processing
 timeout and a send buffer that fills up and drains (harness/c02_backpressure.py).
@@ -121,6 +129,46 @@ def normalise_model(tok):
     return tok
 
 
+# ------------------------------------------------------------------ the limit schedule of a case
+def limits_of(case):
+    """the value `max_response_size` has when each result is supplied, in completion order
+    (for a single request: a one-element list).  This is what the harness sets / what the
+    scenario makes the session set - never read back from the connection."""
+    if 'single' in case:
+        return [case.get('lim', case['max'])]
+    lims = case.get('lims')
+    if lims is None:
+        return [case['max']] * len(case['order'])
+    return list(lims)
+
+
+def limit_changes(case):
+    """does the limit in force at some supply differ from the one at receipt?"""
+    return any(l != case['max'] for l in limits_of(case))
+
+
+def set_limit(conn, lim, decoy=False):
+    """change the public attribute (several times if `decoy`: only the last value counts)"""
+    if decoy:
+        conn.max_response_size = lim + 13
+        conn.max_response_size = 0 if lim else 7
+    conn.max_response_size = lim
+
+
+def setlim_answer_ok(jr, proto, msg, rid, lim):
+    """the session layers change the limit through an ordinary request `set_limit(lim)` whose
+    handler assigns the attribute and returns True: its one response is itself supplied under
+    the NEW limit - the result `true` unless that response is larger than `lim`, then an error
+    under the same id"""
+    cls = getattr(jr, PROTO_CLASS[proto])
+    over = 0 < lim < len(cls.response_message(True, rid))
+    if not isinstance(msg, dict) or msg.get('id') != rid:
+        return False
+    if over:
+        return msg.get('error') is not None and msg.get('result') is None
+    return msg.get('result') is True and msg.get('error') is None
+
+
 # ------------------------------------------------------------------ implementation side
 def recv_batch(jr, conn, case):
     """receive the batch on `conn`; returns (rec, deliver) where deliver(m) hands member m's
@@ -145,9 +193,11 @@ def recv_batch(jr, conn, case):
     by_member = dict(zip(valid, items))
     off = case.get('moff', 0)
 
-    def deliver(m):
+    def deliver(m, lim=None):
         it = by_member.get(m)
         result, _tok = result_for(jr, m + off, m in case.get('errs', ()))
+        if lim is not None:
+            set_limit(conn, lim, case.get('decoy'))
         if m in case.get('unenc', ()):
             # a first attempt with a result that cannot be encoded: must raise ProtocolError,
             # emit nothing and leave the batch as it was (C03's repair of F9 relies on it)
@@ -179,8 +229,8 @@ def run_impl_batch(jr, case):
     conn.max_response_size = case['max']
     rec, deliver = recv_batch(jr, conn, case)
     if deliver:
-        for m in case['order']:
-            if not deliver(m):
+        for m, lim in zip(case['order'], limits_of(case)):
+            if not deliver(m, lim):
                 break
     return rec
 
@@ -200,7 +250,7 @@ def run_impl_multi(jr, case):
         rec, deliver = got[b]
         if deliver is None or b in dead or nxt[b] >= len(subs[b]['order']):
             continue
-        if not deliver(subs[b]['order'][nxt[b]]):
+        if not deliver(subs[b]['order'][nxt[b]], subs[b]['lims'][nxt[b]]):
             dead.add(b)
         nxt[b] += 1
     return [g[0] for g in got]
@@ -210,9 +260,16 @@ def sub_cases(case):
     """the batches of a multi case as ordinary cases; member numbers (result tokens) continue
     across the batches so that an entry that strays into the wrong batch is recognised"""
     out, off = [], 0
-    for sub in case['multi']:
-        out.append(dict(sub, proto=case['proto'], max=case['max'], moff=off,
-                        inforce=case.get('inforce', case['proto'])))
+    # the limit is the connection's: delivery k of batch b sees the value of its interleaving step
+    ilims = case.get('ilims') or [case['max']] * len(case['interleave'])
+    lims = [[] for _ in case['multi']]
+    for b, lim in zip(case['interleave'], ilims):
+        if len(lims[b]) < len(case['multi'][b]['order']):
+            lims[b].append(lim)
+    for b, sub in enumerate(case['multi']):
+        lims[b] += [case['max']] * (len(sub['order']) - len(lims[b]))
+        out.append(dict(sub, proto=case['proto'], max=case['max'], moff=off, lims=lims[b],
+                        decoy=case.get('decoy'), inforce=case.get('inforce', case['proto'])))
         off += len(sub['members'])
     return out
 
@@ -237,6 +294,8 @@ def run_impl_single(jr, case):
         rid = case['single'].get('id')
         inforce = getattr(jr, PROTO_CLASS[case.get('inforce', case['proto'])])
         rec['len'] = len(inforce.response_message(result, rid))
+        if 'lim' in case:
+            set_limit(conn, case['lim'], case.get('decoy'))
         out = items[0].send_result(result)
         rec['reply'] = None if out is None else decode_entry(json.loads(out))
     return rec
@@ -268,7 +327,8 @@ def batch_oracle(case, rec):
     request member has its result, one entry per request member (matched by id) plus one error
     entry per invalid member; only notifications -> nothing; the entry of a member whose handler
     delivered is that result unless too large; size clause at entry and at batch level (module
-    docstring).  `case['busy']`: members whose handler did not deliver before the processing
+    docstring), every time with the maximum configured AT THE MOMENT THE RESULT WAS SUPPLIED
+    (`limits_of`; what it was when the batch was received plays no role).  `case['busy']`: members whose handler did not deliver before the processing
     timeout - any well-formed entry under the member's id is their one response.
     `rec['sent']`, if present, lists every batch message that left: (number of request members
     that had their result when it was written - 1, entries, length in bytes)."""
@@ -313,6 +373,7 @@ def batch_oracle(case, rec):
     pool = list(entries)
     real, replaced = [], []
     lens = dict(zip(case['order'], rec['lens']))
+    lim_at = dict(zip(case['order'], limits_of(case)))
     for m in case['order']:
         rid = kinds[m][1]
         hit = [e for e in pool if e[0] == 'r' and e[1] == m + off]
@@ -327,34 +388,56 @@ def batch_oracle(case, rec):
                 return 'c02:missing-entry', f'no entry under id {rid!r} for member {m}'
             e = hit[0]
             if m not in busy:
-                if case['max'] == 0:
+                if lim_at[m] == 0:
                     return ('c02:replaced-without-limit',
                             f'member {m} delivered its result but got an error entry (code '
-                            f'{e[2] if len(e) > 2 else "?"}) although max_response_size is 0')
+                            f'{e[2] if len(e) > 2 else "?"}) although max_response_size was 0 '
+                            f'when the result was supplied{_sched(case)}')
                 replaced.append(m)
         pool.remove(e)
     if any(e[0] != 'E' for e in pool) or len(pool) != len(invalid):
         return 'c02:invalid-member-errors', f'left-over entries {pool} for {len(invalid)} invalid members'
-    mx = case['max']
-    if mx > 0:
-        # (i) a response object larger than the maximum is replaced
-        for m in real:
-            if lens[m] > mx:
-                return ('c02:oversize-not-replaced',
-                        f'the response to member {m} is {lens[m]} > {mx} bytes but was sent')
-        # (ii) the results kept, as a batch of their own, are within the maximum
-        if real and batch_len([lens[m] for m in real]) > mx:
+    # (i) a response object larger than the maximum configured when its result was supplied is
+    # replaced (by an error entry with the same id: matched above)
+    for m in real:
+        if 0 < lim_at[m] < lens[m]:
             return ('c02:oversize-not-replaced',
-                    f'real results kept need {batch_len([lens[m] for m in real])} > {mx} bytes')
-        # (ii) nothing replaced, no invalid member: the bytes that left are within the maximum
-        if not invalid and not busy and len(real) == len(reqs) and rawlen is not None and rawlen > mx:
-            return 'c02:batch-over-limit', f'batch response of {rawlen} > {mx} bytes, nothing replaced'
-        # a batch that fits as a whole has nothing replaced
-        if not invalid and not busy and replaced and batch_len([lens[m] for m in case['order']]) <= mx:
+                    f'the response to member {m} is {lens[m]} bytes, max_response_size was '
+                    f'{lim_at[m]} when its result was supplied, but it was sent{_sched(case)}')
+    # (ii) the results kept up to and including one supplied under a positive maximum, as a batch
+    # of their own, are within that maximum (constant limit: all results kept are within it)
+    pos = {m: k for k, m in enumerate(case['order'])}
+    for m in real:
+        if lim_at[m] > 0:
+            kept = [lens[x] for x in real if pos[x] <= pos[m]]
+            if batch_len(kept) > lim_at[m]:
+                return ('c02:oversize-not-replaced',
+                        f'real results kept up to member {m} need {batch_len(kept)} > '
+                        f'{lim_at[m]} bytes (the maximum when member {m} supplied its '
+                        f'result){_sched(case)}')
+    if case['order'] and not invalid and not busy:
+        last = lim_at[case['order'][-1]]
+        # (ii') nothing replaced, no invalid member: the bytes that left are within the maximum
+        # in force when the last result was supplied
+        if last > 0 and len(real) == len(reqs) and rawlen is not None and rawlen > last:
+            return ('c02:batch-over-limit',
+                    f'batch response of {rawlen} > {last} bytes, nothing replaced{_sched(case)}')
+        # (iii) an entry is not replaced under a maximum the whole batch fits under
+        whole = batch_len([lens[m] for m in case['order']])
+        over = [m for m in replaced if whole <= lim_at[m]]
+        if over:
             return ('c02:replaced-though-within-limit',
-                    f'the whole batch needs {batch_len([lens[m] for m in case["order"]])} <= {mx} '
-                    f'bytes but entries of members {replaced} were replaced')
+                    f'the whole batch needs {whole} bytes, max_response_size was '
+                    f'{[lim_at[m] for m in over]} when members {over} supplied their results, '
+                    f'but their entries were replaced{_sched(case)}')
     return None
+
+
+def _sched(case):
+    """the limit schedule, for the `why` text of a history in which the limit changes"""
+    if not limit_changes(case):
+        return ''
+    return f' [max_response_size at receipt {case["max"]}, at the supplies {limits_of(case)}]'
 
 
 def same_json(a, b):
@@ -388,23 +471,27 @@ def single_oracle(case, rec):
         return 'c02:reply-count', f'{1 + rec["extra"]} responses written for one request'
     rep = rec['reply']
     rid = kind[1]
-    over = case['max'] > 0 and rec['len'] > case['max']
+    lim = limits_of(case)[0]        # the maximum configured when the result was supplied
+    over = 0 < lim < rec['len']
     if rep[0] == 'r':
         if not same_json(rep[2], rid):
             return 'c02:wrong-id', f'answered under {rep[2]!r}, request id {rid!r}'
         if over:
-            return 'c02:oversize-not-replaced', f'{rec["len"]} > {case["max"]} but the result was sent'
+            return ('c02:oversize-not-replaced',
+                    f'{rec["len"]} > {lim} (max_response_size when the result was supplied) but '
+                    f'the result was sent{_sched(case)}')
     elif rep[0] == 'E':
         if not same_json(rep[1], rid):
             return 'c02:wrong-id', f'error under {rep[1]!r}, request id {rid!r}'
         if not over and not case.get('busy'):
             code = rep[2] if len(rep) > 2 else '?'
-            if case['max'] == 0:
+            if lim == 0:
                 return ('c02:replaced-without-limit',
                         f'the handler delivered its result but the response is an error (code '
-                        f'{code}) although max_response_size is 0')
+                        f'{code}) although max_response_size was 0 when it was supplied{_sched(case)}')
             return ('c02:replaced-though-within-limit',
-                    f'{rec["len"]} bytes, limit {case["max"]}, answered by an error (code {code})')
+                    f'{rec["len"]} bytes, limit {lim} when the result was supplied, answered by an '
+                    f'error (code {code}){_sched(case)}')
     else:
         return 'c02:malformed-entry', f'{rep}'
     return None
@@ -416,14 +503,14 @@ def model_line(case, rec):
     if 'single' in case:
         kind = classify_member(proto, case['single'])
         tok = 'N' if kind[0] == 'notif' else f'{"R" if kind[0] == "req" else "X"}:{id_token(kind[1])}'
-        return f'S {case["max"]} {rec["len"]} {tok}'
+        return f'S {limits_of(case)[0]} {rec["len"]} {tok}'
     toks = []
     for p in case['members']:
         k = classify_member(proto, p)
         toks.append('N' if k[0] == 'notif' else f'{"R" if k[0] == "req" else "X"}:{id_token(k[1])}')
     lens = rec['lens'] + [0] * (len(case['order']) - len(rec['lens']))
-    calls = ','.join(f'{m}:{l}' for m, l in zip(case['order'], lens)) or '-'
-    return f'B {case["max"]} {",".join(toks)} {calls}'
+    calls = ','.join(f'{m}:{l}:{lim}' for m, l, lim in zip(case['order'], lens, limits_of(case))) or '-'
+    return f'B {",".join(toks)} {calls}'
 
 
 def impl_text(case, rec):
@@ -446,12 +533,11 @@ def impl_text(case, rec):
 
 
 def is_deep(ctx):
-    """explore at thorough depth: thorough tier, or the fingerprints of the modelled functions
-    drifted / an obligation broke.  (lib/vcheck.py re-runs a drifted quick check at depth only
-    when the first pass recorded no violation at all - the known finding F8 is always recorded,
-    so the harness looks at the reasons itself; scopes still stop growing once something
-    unlisted failed.)"""
-    return bool(ctx.deep or getattr(ctx, 'deep_reasons', None))
+    """explore at thorough depth: thorough tier, or the second pass lib/vcheck.py makes after a
+    fingerprint drift / a broken obligation when the quick-depth pass found nothing unlisted
+    (vcheck sets `ctx.deep` for it; the known finding F8 does not suppress that pass any more,
+    so the harness no longer looks at `ctx.deep_reasons` itself - it made both passes deep)."""
+    return bool(ctx.deep)
 
 
 def unlisted_failure(ctx, res):
@@ -545,13 +631,20 @@ def evaluate(ctx, cases, res, scope):
         elif 'members' in c:
             res.count('batch_cases')
             res.count('batch_members_total', len(c['members']))
-            res.count('cases_with_limit', c['max'] > 0)
-            res.count('cases_with_replacement', 'E@' in got and c['max'] > 0)
+            lims = limits_of(c)
+            res.count('cases_with_limit', c['max'] > 0 or any(lims))
+            res.count('cases_with_replacement', 'E@' in got and any(lims))
+            res.count('cases_limit_changed_in_flight', limit_changes(c))
+            res.count('cases_limit_lowered_in_flight', any(
+                0 < b < a or (a == 0 and b > 0) for a, b in zip([c['max']] + lims, lims)))
+            res.count('cases_limit_raised_in_flight', any(
+                0 < a < b or (b == 0 and a > 0) for a, b in zip([c['max']] + lims, lims)))
             res.count('cases_with_unencodable_attempt', bool(c.get('unenc')))
             if len(c['order']) >= 2:
                 res.nontrivial(line + '|' + c['proto'])
         else:
             res.count('single_cases')
+            res.count('single_cases_limit_changed_in_flight', limit_changes(c))
         if sub in (None, 0):
             res.count('cases_' + c['proto'])
     res['evaluations'] += len(cases)
@@ -645,6 +738,51 @@ def unenc_cases(jr, maxlen):
             yield dict(c, unenc=[u])
 
 
+def schedule_member_options(style):
+    """the members of the limit-schedule family: requests with an int / a str id (equal choices
+    give duplicate ids), a notification, an invalid member with / without recoverable id"""
+    opts = member_options(style)
+    return [opts[0], opts[2], opts[3], opts[5], opts[6]]
+
+
+def schedule_cases(jr, maxlen, protos, thin=1):
+    """`max_response_size` changes while the batch is in flight: every composition up to
+    `maxlen` members x every completion order x every limit schedule (value at receipt, value
+    when each result is supplied) over the decision points of THAT delivery - the running size
+    after delivery j is S_j whatever the limits are, so for delivery j the points are 0
+    (unlimited), len_j - 1 (the entry alone is too large), S_j - 1 (replaced), S_j (kept); at
+    receipt: 0, smaller than every response, large enough for the whole batch.  Contains
+    lowering and raising between receipt and the first supply and between supplies, 0 <->
+    positive, and (every other case) several assignments between two events (`decoy`)."""
+    inc = WIRE['inc']
+    count = 0
+    for proto in protos:
+        style = 'v2' if proto in ('v2', 'auto') else 'loose'
+        cls = getattr(jr, PROTO_CLASS['v2' if proto == 'auto' else proto])
+        opts = schedule_member_options(style)
+        for n in range(1, maxlen + 1):
+            for combo in itertools.product(range(len(opts)), repeat=n):
+                members = [opts[k][1](m) for m, k in enumerate(combo)]
+                reqs = [m for m, k in enumerate(combo) if opts[k][0] == 'req']
+                if not reqs:
+                    continue
+                errs = [m for m in reqs if m % 3 == 2]
+                for order in itertools.permutations(reqs):
+                    lens = [len(cls.response_message(result_for(jr, m, m in errs)[0], members[m]['id']))
+                            for m in order]
+                    run, points = 0, []
+                    for l in lens:
+                        run += l + inc
+                        points.append(sorted({0, l - 1, run - 1, run}))
+                    for a in sorted({0, min(lens) - 1, run}):
+                        for lims in itertools.product(*points):
+                            count += 1
+                            if thin > 1 and count % thin:
+                                continue
+                            yield {'proto': proto, 'max': a, 'members': members, 'order': list(order),
+                                   'errs': errs, 'lims': list(lims), 'decoy': bool(count % 2)}
+
+
 def multi_cases(jr, rng, n_random):
     """two request batches in flight on one connection (the closure state of the one must not
     leak into the other): every pair of compositions up to 2 members from {request id 7, request
@@ -683,6 +821,12 @@ def multi_cases(jr, rng, n_random):
                               for s, r in zip(subs, rev)]
                         for mx in (0, 50):
                             yield {'proto': proto, 'max': mx, 'multi': ss, 'interleave': list(il)}
+                        if il:
+                            # the connection's limit changes between the deliveries (each
+                            # delivery, of whichever batch, sees the value of its moment)
+                            for mx, alt in ((50, (0, 50)), (0, (50, 0)), (0, (36, 80))):
+                                yield {'proto': proto, 'max': mx, 'multi': ss, 'interleave': list(il),
+                                       'ilims': [alt[k % 2] for k in range(len(il))]}
     for _ in range(n_random):
         a, b = random_case(rng, jr), random_case(rng, jr)
         proto = rng.choice(['v2', 'loose'])
@@ -691,8 +835,11 @@ def multi_cases(jr, rng, n_random):
         subs = [{k: c[k] for k in ('members', 'order', 'errs', 'unenc')} for c in (a, b)]
         il = [0] * len(a['order']) + [1] * len(b['order'])
         rng.shuffle(il)
-        yield {'proto': a['proto'], 'max': rng.choice([0, a['max'], b['max']]), 'multi': subs,
-               'interleave': il}
+        c = {'proto': a['proto'], 'max': rng.choice([0, a['max'], b['max']]), 'multi': subs,
+             'interleave': il}
+        if rng.random() < 0.5:
+            c['ilims'] = [rng.choice([0, a['max'], b['max'], rng.randint(1, 400)]) for _ in il]
+        yield c
 
 
 def single_cases(jr):
@@ -717,6 +864,15 @@ def single_cases(jr):
                     ln = 60
                 for mx in (0, ln, ln - 1, 1, ln + 1):
                     out.append({'proto': proto, 'max': mx, 'single': p, 'err': err})
+                # the limit is changed between the receipt of the request and its result
+                # (lowered, raised, 0 <-> positive): every pair over {0, ln - 1, ln, ln + 1}
+                k = 0
+                for a in (0, ln - 1, ln, ln + 1):
+                    for b in (0, ln - 1, ln, ln + 1):
+                        if a != b:
+                            k += 1
+                            out.append({'proto': proto, 'max': a, 'lim': b, 'single': p, 'err': err,
+                                        'decoy': bool(k % 2)})
         # invalid single messages (what they get is compared with the model, not judged)
         for bad in ({'jsonrpc': '2.0', 'method': 1, 'id': 4}, {'jsonrpc': '2.0', 'method': 'm', 'params': 'oops', 'id': 5},
                     {'jsonrpc': '2.0', 'method': 'm', 'id': [1]}, {'jsonrpc': '2.0', 'method': None}, 5, 'x'):
@@ -761,8 +917,14 @@ def random_case(rng, jr):
     lim = list(limits_for(jr, proto, [p if isinstance(p, dict) else {} for p in members], order, errs, True))
     mx = rng.choice(lim + [rng.randint(1, 400)])
     nerrs = [m for m, k in enumerate(kinds) if k[0] == 'notif' and rng.random() < 0.3]
-    return {'proto': proto, 'max': mx, 'members': members, 'order': order, 'errs': errs,
+    case = {'proto': proto, 'max': mx, 'members': members, 'order': order, 'errs': errs,
             'unenc': unenc, 'nerrs': nerrs}
+    if order and rng.random() < 0.5:
+        # the limit changes while the batch is in flight: stays / 0 / a decision point / anything
+        pool = lim + [0, mx, mx, rng.randint(1, 400)]
+        case['lims'] = [rng.choice(pool) for _ in order]
+        case['decoy'] = rng.random() < 0.3
+    return case
 
 
 def parse_corpus_line(line):
@@ -774,7 +936,12 @@ RULE = ('case = (protocol, max_response_size, batch composition, completion orde
         'id (equal choices give duplicate ids), notification without id / with null id, invalid member '
         'with / without recoverable id} x every completion order of the request members x limits at '
         'the decision points (0, first entry fits exactly / by one byte not, whole batch fits exactly / '
-        'not), for v2, Loose and AutoDetect; single requests/notifications on all four protocols with '
+        'not), for v2, Loose and AutoDetect; max_response_size CHANGED while the batch / the request is in '
+        'flight: every composition up to 3 members over {request int/str id, notification, invalid} x every '
+        'completion order x every schedule (value at receipt, value at each supply) over the decision points of '
+        'each delivery (0, entry alone too large, running size exceeds by one / fits exactly), singles with every '
+        'pair (limit at receipt, limit at supply) around the response length, two batches in flight with the limit '
+        'alternating between deliveries, half of the random batches with a random schedule; single requests/notifications on all four protocols with '
         'every id type x limits at the boundary; a first attempt with an unencodable result by each request member; two '
         'batches in flight on one connection x every interleaving of their deliveries; seeded random batches up to 8 '
         'members; a serving '
@@ -799,6 +966,11 @@ def run(ctx):
     evaluate(ctx, single_cases(jr), res, 'singles')
     evaluate(ctx, list(unenc_cases(jr, 2 if not is_deep(ctx) else 3)), res, 'exhaustive_unencodable_attempt')
     evaluate(ctx, list(multi_cases(jr, rng, 300 if not is_deep(ctx) else 3000)), res, 'two_batches_in_flight')
+    evaluate(ctx, list(schedule_cases(jr, 3, ('v2', 'loose'))), res, 'limit_schedules_len_le_3')
+    if is_deep(ctx) and not unlisted_failure(ctx, res):
+        evaluate(ctx, list(schedule_cases(jr, 3, ('auto',))), res, 'limit_schedules_len_le_3_auto')
+        evaluate(ctx, [c for c in schedule_cases(jr, 4, ('v2',), thin=3 if ctx.tier == 'thorough' else 12)
+                       if len(c['members']) == 4], res, 'limit_schedules_len_4')
     done = 0
     for n, protos, rich in ((3, ('v2', 'loose', 'auto'), True), (4, ('v2', 'loose'), False)):
         if unlisted_failure(ctx, res) and n > 3:
